@@ -84,6 +84,7 @@ def run_program(prog, prefix=(), kinds=("P", "T", "K"), kill_code=-9, track_stat
     gc_was = gc.isenabled()
     gc.disable()
     w = W.build_world(S, cpu_count=pool.get("cpu_count", 2), psutil=pool.get("psutil", True))
+    w.slow_start = pool.get("slow_start")
     S.world = w
     w.werror = bool(pool.get("werror"))
     if pool.get("parent_depth"):
